@@ -1,8 +1,10 @@
 /-
 C07 for LP tokens — who can change an LP token's total supply.  `supply_non_lp` (Halo/Props/C07.lean) says that
-the supply of a cw20 token that is not an LP token changes only by a holder's burn; for an LP token `t` the
-only further operations are a provision addressed to a pair whose LP token is `t`, and a withdrawal hook that
-`t` delivers to such a pair.  Routes cannot reach a provision or a withdrawal: the router only ever swaps.
+the supply of a cw20 token that is not an LP token changes only by a burn of a holder's tokens (by the holder, or
+by a spender with its allowance: `BurnFrom`); for an LP token `t` the only further operations are a provision
+addressed to a pair whose LP token is `t`, and a withdrawal hook that `t` delivers to such a pair (on the holder's
+`Send`, or on a spender's `SendFrom` with the holder's allowance).  Routes cannot reach a provision or a withdrawal:
+the router only ever swaps.
 The model also lets the raw `Receive {Withdraw}` through when its sender is the LP token contract itself (the pair
 cannot tell it from the hook); an external actor is not a cw20 contract, so `ValidOp` excludes that form.
 -/
@@ -12,16 +14,19 @@ namespace Halo.Props.C07L
 open Halo
 
 /-- the total supply of a cw20 token `t` is changed only by: a provision addressed to a pair whose LP token is `t`,
-a withdrawal hook that `t` delivers to such a pair (or the same `Receive` submitted raw with `t` as the sender), or
-a holder's own burn -/
+a withdrawal hook that `t` delivers to such a pair — on `Send` by the holder or on `SendFrom` by a spender with the
+holder's allowance — (or the same `Receive` submitted raw with `t` as the sender), or a burn of a holder's tokens by
+the holder or by a spender with its allowance (`BurnFrom`) -/
 theorem lp_supply_changes_only {name : Asset → String} {w w' : World} {op : Op} {out : Out}
     (h : exec name w op = .ok (w', out)) (hf : FreshOK w op) (t : Nat) :
     supply w' t = supply w t ∨
     (∃ s q Q f as0 am0 as1 am1 tol r, w.pair q = some Q ∧ Q.lp = t ∧
         op = .pair s q f (.provide as0 am0 as1 am1 tol r)) ∨
     (∃ s q Q a, w.pair q = some Q ∧ Q.lp = t ∧ op = .tokSend t s q a .withdraw) ∨
+    (∃ sp o q Q a, w.pair q = some Q ∧ Q.lp = t ∧ op = .tokSendFrom t sp o q a .withdraw) ∨
     (∃ q Q f from_ a, w.pair q = some Q ∧ Q.lp = t ∧ op = .pair t q f (.receive from_ a .withdraw)) ∨
-    (∃ s a, op = .tokBurn t s a) :=
+    (∃ s a, op = .tokBurn t s a) ∨
+    (∃ sp o a, op = .tokBurnFrom t sp o a) :=
   Halo.Reach.lp_supply_changes_only h hf t
 
 /-- when `p` is the only pair whose LP token is `t`, the provisions and withdrawals are those addressed to `p` -/
@@ -31,8 +36,10 @@ theorem lp_supply_changes_only_pair {name : Asset → String} {w w' : World} {op
     supply w' t = supply w t ∨
     (∃ s f as0 am0 as1 am1 tol r, op = .pair s p f (.provide as0 am0 as1 am1 tol r)) ∨
     (∃ s a, op = .tokSend t s p a .withdraw) ∨
+    (∃ sp o a, op = .tokSendFrom t sp o p a .withdraw) ∨
     (∃ f from_ a, op = .pair t p f (.receive from_ a .withdraw)) ∨
-    (∃ s a, op = .tokBurn t s a) :=
+    (∃ s a, op = .tokBurn t s a) ∨
+    (∃ sp o a, op = .tokBurnFrom t sp o a) :=
   Halo.Reach.lp_supply_changes_only_pair h hf t p huniq
 
 /-- for an operation submitted by an external actor and a live token the raw `Receive` form is impossible -/
@@ -42,7 +49,9 @@ theorem lp_supply_changes_only_valid {name : Asset → String} {w w' : World} {o
     (∃ s q Q f as0 am0 as1 am1 tol r, w.pair q = some Q ∧ Q.lp = t ∧
         op = .pair s q f (.provide as0 am0 as1 am1 tol r)) ∨
     (∃ s q Q a, w.pair q = some Q ∧ Q.lp = t ∧ op = .tokSend t s q a .withdraw) ∨
-    (∃ s a, op = .tokBurn t s a) :=
+    (∃ sp o q Q a, w.pair q = some Q ∧ Q.lp = t ∧ op = .tokSendFrom t sp o q a .withdraw) ∨
+    (∃ s a, op = .tokBurn t s a) ∨
+    (∃ sp o a, op = .tokBurnFrom t sp o a) :=
   Halo.Reach.lp_supply_changes_only_valid h hv t hlive
 
 /-- the supply of a live cw20 token whose minter is `p` grows only through a provision addressed to `p` -/
